@@ -304,8 +304,8 @@ func famC10() Family {
 
 func runC10(tier Tier, seed int64) *report.Report {
 	r := &report.Report{Contract: "trans.Desugar on every parsed rendering: the original tree prints the same before and after; the result contains only the eleven core node kinds; desugaring the result again changes nothing; the result prints exactly like the explicit tree built by the harness (operators, ?:, method calls as CallExpr on the function name, receiver first, parentheses dropped). Semantic half: the sugared text, the explicit tree, the redundantly parenthesised text, the other notation (if ↔ ?:, f(a,…) ↔ a.f(…)) and (a.f)(…) are accepted alike with equal types (types.Equals) and give equal values / the same failure class and the same host-call trace on all four back ends"}
-	std := stdGroups()[:1] // raw environment group (two value assignments)
-	semMax := tier.MaxNodes
+	std := stdGroups()[:1]      // raw environment group (two value assignments)
+	semMax := tier.MaxNodes - 1 // semantic half one node smaller than the tree half
 	pool := NewPool("C10", func(w *Worker, c *Case) {
 		w.processC10(c, std, c.Family != "exhaustive" || c.T.Size() <= semMax)
 	})
@@ -335,9 +335,9 @@ func runC10(tier Tier, seed int64) *report.Report {
 	}
 	pool.Close()
 	pool.Merge(r)
-	r.Space = fmt.Sprintf("(a) EXHAUSTIVE: all %d well-typed terms with at most %d AST nodes over the signature Σ (as for C01–C06), each rendered in up to 7 notations: operators infix/prefix, explicit core tree built through the ast constructors, every sub-expression in redundant parentheses, if(c,a,b) ↔ c ? a : b and f(a,…) ↔ a.f(…) flipped, both combined, and the callee of a method call parenthesised ((a.f)(…)); (b) directed families: %s; (c) %d seeded random programs (seed %d, depth ≤ %d) in mixed notations. Semantic half in the raw Σ environment, two value assignments, four back ends.",
-		nEx, tier.MaxNodes, strings.Join(fams, ", "), tier.Random, seed, tier.Depth)
-	r.Bound = fmt.Sprintf("exhaustive part: ≤ %d AST nodes (tier %s); random part: %d programs, depth ≤ %d", tier.MaxNodes, tier.Name, tier.Random, tier.Depth)
+	r.Space = fmt.Sprintf("(a) EXHAUSTIVE: all %d well-typed terms with at most %d AST nodes over the signature Σ (as for C01–C06), each rendered in up to 7 notations: operators infix/prefix, explicit core tree built through the ast constructors, every sub-expression in redundant parentheses, if(c,a,b) ↔ c ? a : b and f(a,…) ↔ a.f(…) flipped, both combined, and the callee of a method call parenthesised ((a.f)(…)); (b) directed families: %s; (c) %d seeded random programs (seed %d, depth ≤ %d) in mixed notations. Semantic half (compile and run every rendering) for the terms with at most %d nodes and all of (b), (c), in the raw Σ environment, two value assignments, four back ends; tree half for everything.",
+		nEx, tier.MaxNodes, strings.Join(fams, ", "), tier.Random, seed, tier.Depth, semMax)
+	r.Bound = fmt.Sprintf("exhaustive part: ≤ %d AST nodes for the tree half, ≤ %d for the semantic half (tier %s); random part: %d programs, depth ≤ %d", tier.MaxNodes, semMax, tier.Name, tier.Random, tier.Depth)
 	r.Rule = "a case is one (rendering pair, environment) comparison on four back ends (evaluations); distinct_nontrivial counts distinct canonical program texts with at least one operator / call / access node (each stands for its ≤ 7 renderings)"
 	r.Exhaustive = true // part (a) only
 	r.Notes = append(r.Notes, fmt.Sprintf("exhaustive only for part (a) (%d terms, node bound %d); parts (b) and (c) are samples", nEx, tier.MaxNodes))
